@@ -534,6 +534,12 @@ def r05_11(run):
             ids = [x for x in own_nodes(m.node) if isinstance(x, ast.Call) and isinstance(x.func, ast.Name) and x.func.id == "id" and x.args]
             for x in ids:
                 n += 1
+                if isinstance(x.args[0], ast.Attribute) and x.args[0].attr == "data":
+                    run.ob("R05.11", loc(m, x), m.short, f"`{norm(x)[:40]}` identifies an operand by its tensor, not by its array", False,
+                           "id(<tensor>.data) keys an operand by the ndarray it wraps: distinct tensors can wrap one array (astensor(x, constant=True), "
+                           "Tensor(arr, copy=False), placeholders), so a constant operand sharing memory with a variable is counted as a second occurrence "
+                           "of that variable -- its gradient is scaled as if the constant were differentiated through")
+                    continue
                 fwd = mname in ("__call__", "__init__")
                 run.ob("R05.11", loc(m, x), m.short, f"`{norm(x)[:40]}` is evaluated at backward time", not fwd,
                        "identity read from the op's current variables when it is needed" if not fwd else
